@@ -245,8 +245,14 @@ class Program:
                         b.setdefault(s.target.id, ("var", modname, s.target.id))
                 elif isinstance(s, ast.Try):
                     walk_toplevel(s.body)
+                    before = dict(b)
                     for h in s.handlers:
                         walk_toplevel(h.body)
+                    # `try: from html import escape / except ImportError: from cgi import escape`: the try-body binding is the
+                    # one in force on the interpreter the code is written for; a fallback import must not shadow it
+                    for k, v in before.items():
+                        if b.get(k) != v and v[0] in ("ext", "import"):
+                            b[k] = v
                     walk_toplevel(s.orelse)
                     walk_toplevel(s.finalbody)
                 elif isinstance(s, ast.If):
